@@ -1013,6 +1013,7 @@ def analyse(rep: Report) -> None:
                       'sets reach the matching media type', floor=11)
     rep.rule('R07.5', 'option parsers keep no state between the items of a list value', floor=3)
     rep.rule('R07.6', 'a cloned options container shares no group container with its source', floor=1)
+    rep.rule('R07.7', 'error positions forwarded in media URLs are converted with the representation of their own media type (rule of C16)', floor=1)
     idx = Index(rep.repo)
     cg = CallGraph(idx)
     opts = read_registry(rep, idx)
@@ -1026,3 +1027,11 @@ def analyse(rep: Report) -> None:
     r07_4(rep, idx)
     r07_5(rep)
     r07_6(rep)
+    from ..core import lift
+    from . import c16 as _c16
+
+    def _run(sub, _idx=idx):
+        sub.rule('R16.10', 'error positions are converted with the representation of their own media type', floor=0)
+        _c16.r16_10(sub, _idx)
+    lift(rep, 'R07.7', 'C16', _run, ('R16.10',), 'dashlive/server/requesthandler/manifest_context.py::ManifestContext.calculate_cgi_parameters',
+         'verr / aerr / terr positions use their own representation')
